@@ -610,9 +610,7 @@ theorem Ast.reach_of_source : ∀ a : Ast, a.isSource = true → a.reach = []
 `safeCaps`: whatever the configuration hands over bounds what the result reaches and what is done. -/
 theorem confinement_general (W : World) (hfix : W.fixes = Fixes.all) (hsafe : W.safe.reach ⊆ safeCaps)
     (ec : EvalConfig) (C : List Cap) (hC : cfgCaps W ec ⊆ C) (a : Ast) (ha : a.isSource = true)
-    (fuel : Nat) (c : Ctx) :
-    (∀ v, (sandboxEval W fuel c ec a).1 = some v → v.reach ⊆ C) ∧
-    (∀ cap arg, Eff.did cap arg ∈ (sandboxEval W fuel c ec a).2 → cap ∈ C) := by
+    (fuel : Nat) (c : Ctx) : Spec.Confined C (sandboxEval W fuel c ec a) := by
   have h := (inv W C hfix hsafe fuel).ceval c ec (.src a) hC
     (by simp [Val.reach, Ast.reach_of_source a ha])
   exact ⟨h.2, h.1⟩
